@@ -165,14 +165,14 @@ class Traces:
             return [val.subst(F)]
         if fam == 'matrix':
             N = sl['vecs'][0]
-            s = Poly.const(0, d)
+            s = Poly.const(0, d + self.nscale)
             for a in range(d):
                 for c in range(d):
                     s = s + val[a][c] * (N[a] * N[c])
             return [s.subst(F)]
         out = []
         for vec in sl['vecs']:
-            s = Poly.const(0, d)
+            s = Poly.const(0, d + self.nscale)
             for comp, c in zip(val, vec):
                 s = s + comp * c
             out.append(s.subst(F))
@@ -364,9 +364,8 @@ def generate(translated, conforming, known_keys=()):
             else:
                 txt.append(f'Lemma {n}_signs : signs_uniform (t_slots {n}_t) = true.\nProof. vm_compute. reflexivity. Qed.\n')
                 uni_names.append(n)
-        pp = isinstance(tr, c09_gen.TranslatedPP)
-        grp = 'C03_T_Legendre' if pp else 'C03_T_' + rdn
-        src_of[grp] = ('C09_P_' + type(tr.elem).__name__) if pp else ('C09_E_' + rdn)
+        grp = getattr(tr, 'c03_group', 'C03_T_' + rdn)
+        src_of[grp] = getattr(tr, 'src_group', 'C09_E_' + rdn)
         groups.setdefault(grp, []).append((n, '\n'.join(txt)))
         info['elements'].append(el)
     chunks = {}
